@@ -568,6 +568,10 @@ func (p Params) CheckRules(feederID uint64, prices []*PriceSource) (bool, error)
 						break
 					}
 				}
+				if notFound {
+					// a listed source is missing, later sources must not overwrite this
+					break
+				}
 			}
 		}
 		if notFound {
